@@ -39,7 +39,7 @@ def gen_model(rng, size="small", feats=None):
         "endtime": p(0.35), "maxdur": p(0.3), "maxstops": p(0.3), "maxdist": p(0.3),
         "attrs": p(0.3), "precedence": p(0.4), "no_startloc": p(0.15), "penalties": p(0.6),
         "activation": p(0.5), "nonmetric": p(0.5), "tight": p(0.5), "user": False, "groups": False, "initial": False,
-        "colocated": False, "one_vehicle": False,
+        "colocated": False, "one_vehicle": False, "fixed_p": 0.3,
     }
     if feats:
         F.update(feats)
@@ -207,11 +207,23 @@ def gen_model(rng, size="small", feats=None):
                         od2 = rng.choice(units[w]["orders"]) if units[w]["orders"] else units[w]["stops"]
                         seq.extend(od2)
                     od = rng.choice(units[ui]["orders"]) if units[ui]["orders"] else units[ui]["stops"]
-                    # interleave: put this unit's stops at random places keeping their relative order
-                    pos = sorted(rng.randrange(len(seq) + 1) for _ in od)
-                    for off, (x, q) in enumerate(zip(od, pos)):
-                        seq.insert(q + off, x)
-                fixed_units = {ui for ui in {unit_of(units, x) for x in seq} if p(0.3)}
+                    # interleave: put this unit's stops at random places keeping their relative order; stops tied by a
+                    # direct arc travel as one block and no block is put inside another unit's direct pair
+                    # (an initial route that separates direct successors is rejected by NewSolution since fix 20be0a5)
+                    direct = {(a, b) for u2 in units for (a, b, d) in u2["arcs"] if d}
+                    blocks = []
+                    for x in od:
+                        if blocks and (blocks[-1][-1], x) in direct:
+                            blocks[-1].append(x)
+                        else:
+                            blocks.append([x])
+                    free_gaps = [g for g in range(len(seq) + 1) if not (0 < g < len(seq) and (seq[g - 1], seq[g]) in direct)]
+                    pos = sorted(rng.choice(free_gaps) for _ in blocks)
+                    off = 0
+                    for blk, q in zip(blocks, pos):
+                        seq[q + off:q + off] = blk
+                        off += len(blk)
+                fixed_units = {ui for ui in {unit_of(units, x) for x in seq} if p(F["fixed_p"])}
                 ve["initial"] = [(x, unit_of(units, x) in fixed_units) for x in seq]
     user = []
     if F.get("user"):
@@ -237,7 +249,50 @@ def gen_model(rng, size="small", feats=None):
             user.append((f1, mxs[f1], False, tmp, True))
             user.append((f2, m2, True, tmp))
     return {"groups": groups, "user": user, "stops": stops, "vehicles": vehicles, "units": units, "arcs": arcs, "dur": dur, "dist": dist,
-            "nres": nres, "res_mode": res_mode, "opts": opts, "features": {k: bool(v) for k, v in F.items()}}
+            "nres": nres, "res_mode": res_mode, "opts": opts, "features": {k: bool(v) for k, v in F.items() if k != "fixed_p"}}
+
+
+def force_fixed_dependency(m, rng):
+    """rewrite a model without precedence/groups so that vehicle 0 starts with the route [a, X], X fixed, and X is
+    only feasible while a (long service) is in front of it: X's window opens when the vehicle arrives WITH a, X's
+    max_wait is smaller than the extra waiting WITHOUT a.  Un-planning a (alone or with the vehicle-level un-plan)
+    is then rejected by the exact check and has to be rolled back."""
+    n = len(m["stops"])
+    if n < 2 or any(len(u["stops"]) != 1 for u in m["units"]) or m.get("groups"):
+        return m
+    a, x = rng.sample(range(n), 2)
+    ve = m["vehicles"][0]
+    if ve["start_time"] is None:
+        ve["start_time"] = T0
+    ve["has_start"] = ve["has_end"] = True
+    ve["end_time"] = None
+    ve["max_duration"] = None
+    ve["max_wait"] = None
+    for v2 in m["vehicles"]:
+        v2["initial"] = [p for p in v2.get("initial", []) if p[0] not in (a, x)]
+        if v2["start_time"] is None:          # a stop with a window needs every vehicle to have a start time
+            v2["start_time"] = T0
+    s0 = n  # matrix index of vehicle 0's start
+    sa, sx = m["stops"][a], m["stops"][x]
+    sa["duration"] = rng.choice([900, 1800, 3000])
+    sa["windows"], sa["max_wait"] = [], None
+    arr_a = ve["start_time"] + m["dur"][s0][a]
+    arr_x_with = arr_a + sa["duration"] + m["dur"][a][x]
+    arr_x_without = ve["start_time"] + m["dur"][s0][x]
+    opens = -(-arr_x_with // 60) * 60          # windows must lie on minute boundaries
+    sx["windows"] = [(opens, opens + 7200)]
+    sx["max_wait"] = max(60, min(300, (opens - arr_x_without) - 120))
+    for st in (sa, sx):
+        st["quantity"] = [0] * m["nres"]
+        st["attrs"] = []
+    ve["attrs"] = []
+    ve["max_stops"] = None
+    ve["max_distance"] = None
+    ve["initial"] = [(a, False), (x, True)] + [p for p in ve.get("initial", []) if p[0] not in (a, x)][:1]
+    m["opts"]["dis_windows"] = m["opts"]["dis_max_wait_stop"] = m["opts"]["dis_durations"] = False
+    m["opts"]["dis_start_time"] = False
+    m["features"]["windows"] = m["features"]["maxwait_stop"] = m["features"]["initial"] = True
+    return m
 
 
 def unit_of(units, x):
